@@ -10,6 +10,19 @@ from ..harness import AsyncScriptTransport, drive
 
 MOD = __name__
 A, B, C, D, E = [1, 3, 2], [1, 3, 3], [1, 4, 2], [1, 4, 3], [2, 3, 2]
+I, J = [1, 255, 13, 3], [1, 255, 6, 3]  # internal commands (4th element = command 3): parked for sleeping nodes too
+
+
+def cmd_of(k) -> int:
+    return k[3] if len(k) > 3 else 1
+
+
+def msg_of(k, val) -> Message:
+    return Message(k[0], k[1], cmd_of(k), 0, k[2], val)
+
+
+def key_of(k) -> tuple:
+    return (k[0], k[1], cmd_of(k), k[2])
 
 
 class Scenario:
@@ -32,8 +45,8 @@ class Scenario:
         self.sent: dict[tuple, list[str]] = {}
         for i, k in enumerate(cfg["parked"]):
             val = f"p{i}"
-            self.sent.setdefault(tuple(k), []).append(val)
-            drive(gw.send(Message(k[0], k[1], 1, 0, k[2], val)))
+            self.sent.setdefault(key_of(k), []).append(val)
+            drive(gw.send(msg_of(k, val)))
         assert not t.log, t.log
         t.sync = False
         self.errors: list[str] = []
@@ -53,10 +66,10 @@ class Scenario:
     async def _sender(self, i: int):
         for j, k in enumerate(self.cfg["senders"][i]):
             val = f"s{i}{j}"
-            self.sent.setdefault(tuple(k), []).append(val)  # send order = order in which send calls start
+            self.sent.setdefault(key_of(k), []).append(val)  # send order = order in which send calls start
             if self.t.pending_writes:
                 self.nontrivial = True  # a send runs while a flush write is in flight
-            await self.gw.send(Message(k[0], k[1], 1, 0, k[2], val))
+            await self.gw.send(msg_of(k, val))
 
     # -- environment ----------------------------------------------------------
     def enabled(self) -> list:
@@ -116,9 +129,9 @@ class Scenario:
         written: dict[tuple, list[str]] = {}
         for line in self.t.log:
             f = line.rstrip("\n").split(";", 5)
-            if f[2] != "1":
-                continue
-            written.setdefault((int(f[0]), int(f[1]), int(f[4])), []).append(f[5])
+            if f[2] == "3" and f[4] == "19":
+                continue  # presentation requests are not application commands
+            written.setdefault((int(f[0]), int(f[1]), int(f[2]), int(f[4])), []).append(f[5])
         self.written = written
         for key, vals in self.sent.items():
             w = written.get(key, [])
@@ -153,6 +166,8 @@ def configs(ctx: core.Ctx) -> list:
         {"parked": [A, B, C, D], "senders": [[A], [D]]},
         {"parked": [A, B], "senders": [[A], [A], [B]]},
         {"parked": [A, B, C], "senders": [[A, B], [C, E]]},
+        {"parked": [I, A], "senders": [[I], [A]]},
+        {"parked": [A, I, J], "senders": [[J, I]]},
     ]
     if ctx.quick:
         versions = ["2.1", "2.2"]
